@@ -30,7 +30,7 @@ theorem setter_inv (evs : List Ev) (h : canonical evs = true) (s : St) (p : Nat)
   simp only at hs
   subst hs
   simp only [canonical, Bool.or_eq_true, beq_iff_eq] at h
-  rcases h with (h | h) | h <;> subst h <;> cases cur <;>
+  rcases h with ((((h | h) | h) | h) | h) | h <;> subst h <;> cases cur <;>
     simp [setter, ev, target, SubInv, addN]
 
 /-- **every history**: after any sequence of assignments the callback is registered with exactly the installed object -/
@@ -71,6 +71,11 @@ theorem add_then_remove_ok_if_distinct (s : St) (p : Nat) (hs : SubInv s) (hd : 
     have hq : q ≠ p := fun h => hd (by rw [h])
     have hpq : ¬ p = q := fun h => hq h.symm
     simp [setter, ev, target, SubInv, addN, hpq]
+
+/-- the same slip written with a local alias (`previous = self._x; self._x = value; add; previous.remove`), as seeded -/
+theorem add_then_remove_old_breaks :
+    ∃ s p, SubInv s ∧ ¬ SubInv (setter [.assign, .add .attr, .remove .old] s p) :=
+  ⟨{ cur := some 7, subs := [7] }, 7, rfl, by decide⟩
 
 /-- never unregistering (subscribe only on first assignment) leaves the owner deaf to the object it moved to -/
 theorem add_if_none_breaks :
